@@ -3,7 +3,7 @@
 # Makes a scratch copy of /repo under /tmp, replaces the first occurrence (or [count]th)
 # of <old> by <new> in <file>, runs the quick check of <ID> against the copy, removes the copy.
 set -u
-ID=$1; FILE=$2; OLD=$3; NEW=$4; NTH=${5:-1}
+ID=$1; FILE=$2; OLD=$3; NEW=$4; NTH=${5:-1}; APPEND=${6:-}
 D=$(mktemp -d /tmp/gmut.XXXXXX)
 rsync -a --exclude .git /repo/ $D/
 python3 - "$D/$FILE" "$OLD" "$NEW" "$NTH" <<'PY'
@@ -20,6 +20,7 @@ open(p,'w').write(s)
 PY
 rc=$?
 if [ $rc -ne 0 ]; then rm -rf $D; exit 3; fi
+if [ -n "$APPEND" ]; then printf '\n%s\n' "$APPEND" >> "$D/$FILE"; fi
 (cd $D && GOFLAGS=-mod=mod GOPROXY=off GOSUMDB=off go build ./builder/... ./engine/... ./context/... ./internal/... ) || { echo "MUTANT does not compile"; rm -rf $D; exit 3; }
 VERIF_REPO=$D VERIF_SCALE=${VERIF_SCALE:-1} /verif/vcheck run $ID --tier quick | grep -v '^  sig' | cut -c1-400
 rc=${PIPESTATUS[0]}
